@@ -90,6 +90,11 @@ class Profile(Lower):
             return self.expr(args[0])
         raise Unsupported('ctor ' + ct)
 
+    def declref(self, n):
+        if n['referencedDecl']['name'] == 'npos':
+            return 'BL_NPOS'
+        return super().declref(n)
+
     def initlist(self, n):
         body = '{ ' + ', '.join(self.expr(a) for a in kids(n)) + ' }'
         return '(Token)' + body if self.ct(n) == 'Token' else body
@@ -137,6 +142,14 @@ class Profile(Lower):
             if name == 'substr':
                 self.needs_prop = True
                 return 'bl_sv_substr(%s, %s)' % (o, ', '.join(self.expr(a) for a in args))
+            if name == 'empty':
+                return '(SV_SIZE(%s) == 0)' % o
+            if name in ('find', 'rfind') and args and self.ct(args[0]) == 'char':
+                rest = [a for a in args[1:] if a.get('kind') != 'CXXDefaultArgExpr']
+                if name == 'find' and len(rest) <= 1:
+                    return 'bl_sv_find_char(%s, %s, %s)' % (o, self.expr(args[0]), self.expr(rest[0]) if rest else '0')
+                if name == 'rfind' and not rest:
+                    return 'bl_sv_rfind_char(%s, %s)' % (o, self.expr(args[0]))
         if name in ('find', 'end') and 'unordered_map' in qt(obj):
             return 'bl_kw_find(%s)' % self.expr(args[0]) if name == 'find' else 'BL_KW_END'
         if t == 'vec_Token' and name == 'push_back':
@@ -146,6 +159,14 @@ class Profile(Lower):
     def call_named(self, n, name, args):
         if name in ('isdigit', 'isalpha', 'isalnum', 'isspace'):
             return 'bl_%s(%s)' % (name, self.expr(args[0]))
+        if name == 'count' and len(args) == 3:
+            # std::count(x.begin(), x.end(), ch) over a whole string_view
+            b, e = strip(args[0]), strip(args[1])
+            if b.get('kind') == 'CXXMemberCallExpr' and e.get('kind') == 'CXXMemberCallExpr' and strip(kids(b)[0]).get('name') == 'begin' and strip(kids(e)[0]).get('name') == 'end':
+                ob, oe = kids(strip(kids(b)[0]))[0], kids(strip(kids(e)[0]))[0]
+                if self.ct(ob) == 'bl_sv' and self.expr(ob) == self.expr(oe):
+                    return '((long)bl_sv_count_char(%s, %s))' % (self.expr(ob), self.expr(args[2]))
+            raise Unsupported('std::count shape')
         return super().call_named(n, name, args)
 
     def decl(self, v):
@@ -201,6 +222,21 @@ GHOSTS = r'''
    line at column 1, any other consumed byte advances the column by one.  Only the two
    byte-consuming primitives (advance, match) update it. */
 int g_line, g_col;
+size_t g_fk;
+/* In the bounded route the position at EXIT is compared with the declarative definition (recomputed
+   from the source by an unwound loop), so code that moves the cursor without the two primitives is
+   judged by what it leaves behind, not by how it got there. */
+#ifdef BL_BOUNDED
+static int bl_true_line(const char *p, size_t pos) { int l = 1; for (size_t k = 0; k < pos; k++) if (p[k] == 10) l++; return l; }
+static int bl_true_col(const char *p, size_t pos) { int c = 1; for (size_t k = 0; k < pos; k++) c = (p[k] == 10) ? 1 : c + 1; return c; }
+#define XL bl_true_line(SRC.p, POS)
+#define XC bl_true_col(SRC.p, POS)
+#define ENTRY_TRUTH (g_line == XL && g_col == XC)
+#else
+#define XL g_line
+#define XC g_col
+#define ENTRY_TRUTH 1
+#endif
 /* ghost: start of the token being scanned (offset, true line, true column), and a byte index */
 size_t g_p0, gb; int g_l0, g_c0;
 Token bl_last_tok; size_t bl_tok_count;
@@ -230,9 +266,10 @@ WF_REQ = [
     '__CPROVER_is_fresh(SRC.p, SRC.n ? SRC.n : 1)',
     POSB,
     'self->m_line == g_line && self->m_column == g_col',
+    'ENTRY_TRUTH',
     'bl_exc == 0',
 ]
-WF_ENS = 'POS <= SRC.n && ' + POSB + ' && self->m_line == g_line && self->m_column == g_col'
+WF_ENS = 'POS <= SRC.n && ' + POSB + ' && self->m_line == XL && self->m_column == XC'
 POSVARS = 'self->m_position, self->m_line, self->m_column, g_line, g_col'
 EXC_VARS = 'bl_exc, bl_exc_line, bl_exc_col'
 # inside a token: the first byte (offset g_p0, true position g_l0:g_c0) has been consumed and the
@@ -392,7 +429,7 @@ CONTRACTS = {
             A(POSVARS + ', ' + EXC_VARS + ', g_p0, g_l0, g_c0, bl_last_tok, bl_tok_count, __CPROVER_object_whole(self)'),
             E('tokenize.source_untouched', 'SRC.p == __CPROVER_old(SRC.p) && SRC.n == __CPROVER_old(SRC.n)', ['C15']),
             E('tokenize.consumes_whole_source', '(bl_exc == 0) ==> POS == SRC.n', ['C15', 'C13']),
-            E('tokenize.ends_with_eof_at_true_end', '(bl_exc == 0) ==> (__CPROVER_return_value.size >= 1 && bl_tok_count == __CPROVER_old(bl_tok_count) + __CPROVER_return_value.size && bl_last_tok.type == BL_Eof && bl_last_tok.value.n == 0 && bl_last_tok.line == g_line && bl_last_tok.column == g_col)', ['C15', 'C13']),
+            E('tokenize.ends_with_eof_at_true_end', '(bl_exc == 0) ==> (__CPROVER_return_value.size >= 1 && bl_tok_count == __CPROVER_old(bl_tok_count) + __CPROVER_return_value.size && bl_last_tok.type == BL_Eof && bl_last_tok.value.n == 0 && bl_last_tok.line == XL && bl_last_tok.column == XC)', ['C15', 'C13']),
             E('tokenize.only_lexical_errors', 'bl_exc == 0 || bl_exc == EXC_LEX', ['C13', 'C12']),
             E('tokenize.true_position_kept', WF_ENS, ['C15']),
         ],
@@ -407,7 +444,8 @@ CONTRACTS = {
 
 PRIMS = ['peek', 'peekNext', 'advance', 'match', 'reportError']   # makeToken (loop-free, returns a pointer) is inlined
 F = []
-BD = dict(bounded_defs=['SRCMAX=3'], unwind=5, bounded_replace=['bl_kw_find'], bounded_timeout=900)
+BD = dict(bounded_defs=['SRCMAX=5'], unwind=7, bounded_replace=['bl_kw_find'], bounded_timeout=900)
+ALWAYS_REPLACE = ['bl_kw_find', 'bl_sv_find_char', 'bl_sv_rfind_char', 'bl_sv_count_char']
 HARNESSES = [
     dict(name='peek', fn='peek', replace=[], flags=F, props=['C13', 'C12'], timeout=120),
     dict(name='peekNext', fn='peekNext', replace=[], flags=F, props=['C13', 'C12'], timeout=120),
@@ -418,7 +456,7 @@ HARNESSES = [
     dict(name='skipComment', fn='skipComment', replace=['advance'], flags=F, props=['C15', 'C13', 'C12'], timeout=300),
     dict(name='skipWhitespace', fn='skipWhitespace', replace=['advance', 'peek', 'peekNext', 'skipComment'], flags=F, props=['C15', 'C13', 'C12'], timeout=300),
     dict(name='scanNumber', fn='scanNumber', replace=PRIMS, flags=F, props=['C15', 'C13', 'C12'], timeout=600),
-    dict(name='scanIdentifierOrKeyword', fn='scanIdentifierOrKeyword', replace=PRIMS + ['bl_kw_find'], flags=F, props=['C15', 'C13', 'C12'], timeout=600,
+    dict(name='scanIdentifierOrKeyword', fn='scanIdentifierOrKeyword', replace=PRIMS, flags=F, props=['C15', 'C13', 'C12'], timeout=600,
          canaries=[('bl_exc == 0', 'normal return')]),
     dict(name='scanString', fn='scanString', replace=PRIMS, flags=F, props=['C15', 'C13', 'C12'], timeout=600),
     dict(name='scanChar', fn='scanChar', replace=PRIMS, flags=F, props=['C15', 'C13', 'C12'], timeout=600),
@@ -501,7 +539,7 @@ def replay_counterexample(pu, h, label, failure, work, tier, seed):
         tried.append('case ' + s.hex())
         fails = [l for l in out.split('\n') if l.startswith('FAIL ')]
         if fails:
-            return dict(failing_input_found=True, failing_input=fails[0], native_failures=fails[:5], signature='source=' + s.hex(),
+            return dict(failing_input_found=True, failing_input=fails[0], native_failures=fails[:5], signature='source=' + s.hex(), oracle_label=re.search(r'label=(\S+)', fails[0]).group(1),
                         reproduce_args=cmd[1:], reproduce='bin/check <property> --replay <this file>  (runs the real lexer on the source bytes ' + s.hex() + ')',
                         replay_inputs_tried=tried, matched_same_obligation=any(('label=' + label + ' ') in l for l in fails))
     cmd = [ob, 'small', '4']
@@ -510,7 +548,7 @@ def replay_counterexample(pu, h, label, failure, work, tier, seed):
     fails = [l for l in out.split('\n') if l.startswith('FAIL ')]
     if fails:
         m = re.search(r'source_hex=(\w*)', fails[0])
-        return dict(failing_input_found=True, failing_input=fails[0], native_failures=fails[:5], signature='source=' + (m.group(1) if m else ''),
+        return dict(failing_input_found=True, failing_input=fails[0], native_failures=fails[:5], signature='source=' + (m.group(1) if m else ''), oracle_label=re.search(r'label=(\S+)', fails[0]).group(1),
                     reproduce_args=['case', m.group(1) if m else ''], reproduce='bin/check <property> --replay <this file>',
                     replay_inputs_tried=tried, matched_same_obligation=any(('label=' + label + ' ') in l for l in fails))
     return dict(failing_input_found=False, replay_inputs_tried=tried, signature='',
